@@ -168,6 +168,14 @@ def run(ctx: Ctx):
         for j in range(12):
             ang = a0 + j * np.radians(0.1)
             scans.append([rng.uniform(-5, 5), rng.uniform(-5, 5), rng.uniform(-5, 5)] + list(axis * np.sin(ang / 2)) + [np.cos(ang / 2)])
+    # ... and a scan THROUGH the identity: rotations of -0.6 .. +0.6 degrees in 0.1 degree steps (cos(theta/2) is flat there: the scalar
+    # part differs from 1 by less than 2e-5), in both signs of the quaternion, with the exact identity among them
+    axis = np.array([rng.gauss(0, 1) for _ in range(3)])
+    axis /= np.linalg.norm(axis)
+    for j in range(-6, 7):
+        ang = np.radians(0.1 * j)
+        sgn = -1.0 if j % 3 == 0 else 1.0
+        scans.append([rng.uniform(-5, 5), rng.uniform(-5, 5), rng.uniform(-5, 5)] + list(sgn * axis * np.sin(ang / 2)) + [sgn * np.cos(ang / 2)])
     for name, arr in (("scan", np.array(scans)), ("fullgrid_8_7", real_rows)):
         for molname in ("generic4", "five"):
             el, coords = MOLS[molname]
